@@ -155,6 +155,7 @@ def HSt.admitEvents (h : HSt) (b : B) (r : ConnectReq) : List String :=
 def showX : XPkt → String
   | .connackErr v code => if v == 5 then s!"connack(sp=0,code={code},se=-,rm=-,ta=-,mp=-,ka=-)" else s!"connack(sp=0,code={code})"
   | .auth c => s!"auth({c})"
+  | .closed => "closed"
 
 /-- `Driver.Broker.flush` plus the packets `Pkt` cannot express (they never share an op with other H packets) -/
 def flushX (b : B) (xout : List XOut) : B × String :=
@@ -339,9 +340,12 @@ def step (h : HSt) (line : String) : HSt × String :=
     | "disc", cn :: _ =>
       let h := bump h
       if (h.st.b.cli? cn).isNone then (h, "no-conn") else
-      let (h, s1) := finishH h { h.bh with b := h.st.b.disconnectIn cn (getO m "se") (getN m "code" 0) }
-      let h := h.fire (h.unregEvents h.st.b cn)
-      let (h, s2) := finishH h { h.bh with b := closeH h.wv h.st.b cn }
+      -- the broker closes the socket once readHandle has returned (writeLoop's exit closes it), so the connection
+      -- is already gone when the scripted client closes its own end
+      let b1 := h.st.b.disconnectIn cn (getO m "se") (getN m "code" 0)
+      let h := h.fire (h.unregEvents b1 cn)
+      let (h, s1) := finishH h { h.bh with b := closeH h.wv b1 cn }
+      let (h, s2) := finishH h h.bh
       (h, s1 ++ " " ++ s2)
     | "close", cn :: _ =>
       let h := bump h
